@@ -26,9 +26,45 @@ def check(run):
         'range, all 8 hook subsets): 14 fixed-level entry points + Record at every registered code and its neighbours, each call with its own context; observable per call: '
         'generator invocations, invocations of each hook and whether they got the caller\'s context, whether the event reached the sink, and whether it carries the hook time, '
         'the context string and the context fields (one of them, on every third call, under the key of one of the call\'s own fields) ahead of the call\'s fields; non-trivial = some calls emitted and some suppressed', keep_empty=False)
+    # a second goroutine logs while another one is parked inside one of its hooks
+    import shutil
+    tmp = common.scratch_dir('c10c')
+    try:
+        cc = ['none', 'sync', 'async', 'sync', 'none']
+        common.write_lines(tmp + '/c', cc)
+        rc, li = common.run_impl('c10c', tmp + '/c', tmp + '/i', timeout=300)
+        co = common.read_lines(tmp + '/i')
+        run.obligations += 1
+        if rc != 0 or len(co) != len(cc):
+            run.add_violation('harness-error', 'c10c rc=%s %s' % (rc, li[-1000:]), [li[-2000:]], no_input=True)
+        else:
+            bad = [(c, o) for c, o in zip(cc, co) if o != '6 6 6 6 6 1']
+            for c, o in bad[:3]:
+                run.add_violation('oracle:c10/concurrent', 'while one goroutine is inside a hook, the calls of another one must still get each hook exactly once with their own context, and the results in their records: calls, time / string / fields hook calls, records with the hook results, the first goroutine\'s record = ' + o, ['family c10c', 'case ' + c, 'impl ' + o])
+            if not bad:
+                run.discharged += 1
+            run.stream('c10/concurrent', len(cc), len(cc), False, 'goroutine A parked inside its context-string hook; goroutine B meanwhile logs through six entry points (built-in, sync, async logger): '
+                       'every hook exactly once per call of B with B\'s context, the hook results in B\'s records; A\'s record complete after release')
+    finally:
+        shutil.rmtree(tmp, ignore_errors=True)
     run.coverage['calls_per_case'] = 50
     return 'see streams'
 
 
 def replay(run, path):
+    lines = common.read_lines(path)
+    if any(l.startswith('family c10c') for l in lines):
+        import shutil
+        cases = [l[5:] for l in lines if l.startswith('case ')]
+        tmp = common.scratch_dir('c10r')
+        common.write_lines(tmp + '/c', cases)
+        common.run_impl('c10c', tmp + '/c', tmp + '/i')
+        rc = 0
+        for c, o in zip(cases, common.read_lines(tmp + '/i')):
+            print(c, '->', o)
+            if o != '6 6 6 6 6 1':
+                rc = 1
+                print('VIOLATION property=C10 replay=' + path)
+        shutil.rmtree(tmp, ignore_errors=True)
+        return rc
     return common.simple_replay('C10', 'c10', path, keep_empty=False)
